@@ -112,6 +112,16 @@ def _bool_contexts(fnode):
                 yield from _split_bool(v, "or-default" if isinstance(n.op, ast.Or) else "and")
 
 
+def _local_func(P, f, name):
+    g = f
+    while g is not None:
+        q = f"{g.qual}.{name}"
+        if q in P.funcs:
+            return P.funcs[q]
+        g = g.outer
+    return None
+
+
 def _in_test(n):
     p = parent(n)
     while isinstance(p, (ast.BoolOp, ast.UnaryOp)):
@@ -202,6 +212,14 @@ def rule_generic(P, scope=None, rules=("GEN-LITERAL", "GEN-SUM", "GEN-FIELDOP", 
                     for a, b in ((n.left, n.comparators[0]), (n.comparators[0], n.left)):
                         if _num_const(a) and K.kind(b) == W:
                             bad = (n, f"weight `{norm(b)}` compared with the literal `{norm(a)}`")
+                elif isinstance(n, ast.Call) and isinstance(n.func, ast.Name) and _local_func(P, f, n.func.id) is not None:
+                    g = _local_func(P, f, n.func.id)
+                    Kg = kinds_for(P, g)
+                    for i, a in enumerate(n.args):
+                        if i < len(g.params) and Kg.env.get(g.params[i]) == W and not isinstance(a, ast.Starred):
+                            ok = not _num_const(a)
+                            res["GEN-LITERAL"].add(f, n, ok, "" if ok else f"literal `{norm(a)}` passed as the weight argument of `{g.name}`",
+                                                   slots=dict(weight=norm(a)))
                 elif isinstance(n, ast.Call):
                     wa = _weight_arg(n)
                     if wa is not None:
@@ -586,3 +604,66 @@ def _iterates_rules(f, it, K):
         if isinstance(x, ast.Name) and x.id in ("cfg", "special_rules") and not isinstance(parent(x), ast.Attribute):
             return True
     return False
+
+
+# ---------------------------------------------------------------- FIELD-API
+
+WFSA_FIELDS = {"start", "stop", "delta", "states", "alphabet"}
+FIELD_WRITERS = {"wfsa/base.py::WFSA.__init__", "wfsa/base.py::WFSA.add_state", "wfsa/base.py::WFSA.add_arc", "wfsa/base.py::WFSA.add_I",
+                 "wfsa/base.py::WFSA.add_F", "wfsa/base.py::WFSA.set_arc", "wfsa/base.py::WFSA.set_I", "wfsa/base.py::WFSA.set_F",
+                 "wfsa/field_wfsa.py::Simple.__init__"}
+
+
+def rule_field_api(P):
+    r = RuleResult("FIELD-API", "the representation fields of an automaton (start, stop, delta, states, alphabet) are written only by "
+                   "its constructor and the construction API, which keep `states` ⊇ every state mentioned by start/stop/delta; assigning "
+                   "the fields directly leaves states unregistered (epsremove, trim and renumber iterate `states`)",
+                   "automata are built through the construction API")
+    n = 0
+    for q in sorted(P.funcs):
+        f = P.funcs[q]
+        if not (f.module.rel.startswith("wfsa/") or f.module.rel in ("fst.py", "cfg.py", "lark_interface.py")):
+            continue
+        for nd in walk_live(f.node):
+            tgts = []
+            if isinstance(nd, ast.Assign):
+                tgts = nd.targets
+            elif isinstance(nd, (ast.AugAssign, ast.AnnAssign)):
+                tgts = [nd.target]
+            for t in tgts:
+                for x in ([t] if not isinstance(t, (ast.Tuple, ast.List)) else t.elts):
+                    base = x
+                    while isinstance(base, ast.Subscript):
+                        base = base.value
+                    if isinstance(base, ast.Attribute) and base.attr in WFSA_FIELDS:
+                        n += 1
+                        ok = q in FIELD_WRITERS
+                        r.looked_at(f)
+                        r.add(f, nd, ok, "" if ok else f"`{first_line(nd)}` writes the field `{base.attr}` directly: the state set / alphabet "
+                              f"bookkeeping of add_I/add_F/add_arc is bypassed (an arc-less initial+final state disappears from `states`, "
+                              f"and ε-removal or trimming then drops its weight)", slots=dict(field=base.attr))
+    r.min_instances = 8
+    return r
+
+
+# ---------------------------------------------------------------- SYM-UNION
+
+
+def rule_sym_union(P):
+    r = RuleResult("SYM-UNION", "Simple.counterexample explores the union of both automata's alphabets (a symbol used by only one of them "
+                   "still distinguishes them) and treats a missing transition matrix as zero", "equivalence search covers both alphabets")
+    f = P.func("wfsa/field_wfsa.py::Simple.counterexample")
+    r.looked_at(f)
+    o = f.params[1]
+    loops = [n for n in walk_live(f.node) if isinstance(n, ast.For) and W_.enclosing_loops(n)]
+    if not loops:
+        raise AnalysisError("Simple.counterexample: symbol loop not found")
+    lp = loops[0]
+    it = W_.deref(f.node, lp.iter)
+    txt = norm(it)
+    ok = "self.arcs" in txt and f"{o}.arcs" in txt and any(isinstance(x, ast.BinOp) and isinstance(x.op, ast.BitOr) or (isinstance(x, ast.Call) and W_.call_name(x) == "union")
+                                                          for x in ast.walk(it))
+    r.add(f, lp, ok, "" if ok else f"the symbol loop iterates `{txt}`: symbols used only by the other automaton are never explored, so two "
+          f"automata that differ only on strings containing such a symbol are reported equivalent (and == becomes asymmetric)", slots=dict(iterates=txt))
+    r.min_instances = 1
+    return r
